@@ -79,9 +79,13 @@ class Ctx:
         if race:
             cmd.insert(2, "-race")
         cmd.append(".")
-        # build from a scratch copy of harness/ whose go.mod points at the tree under test
+        # build from a scratch copy of harness/ whose go.mod points at the tree under test.
+        # harness/ is one Go package shared by all families; while several builders edit it a
+        # file may be momentarily broken, so a failed build is retried with a fresh copy.
         src = os.path.join(self.scratch, "harness-src")
-        if not os.path.isdir(src):
+        p = None
+        for attempt in range(8):
+            shutil.rmtree(src, ignore_errors=True)
             shutil.copytree(HARNESS, src)
             with open(os.path.join(src, "go.mod")) as fh:
                 gm = fh.read()
@@ -89,7 +93,10 @@ class Ctx:
             with open(os.path.join(src, "go.mod"), "w") as fh:
                 fh.write(gm)
             shutil.copyfile(os.path.join(REPO, "go.sum"), os.path.join(src, "go.sum"))
-        p = subprocess.run(cmd, cwd=src, env=goenv(), capture_output=True, text=True)
+            p = subprocess.run(cmd, cwd=src, env=goenv(), capture_output=True, text=True)
+            if p.returncode == 0 or os.environ.get("VERIF_NO_BUILD_RETRY"):
+                break
+            time.sleep(6)
         if p.returncode != 0:
             # A harness that does not build against the tree cannot decide anything.
             raise Undecided("worker build failed:\n" + p.stdout + p.stderr)
@@ -175,9 +182,9 @@ class Ctx:
             with open(path, "w") as fh:
                 json.dump(dict(property=self.prop, what=what, replay=replay_obj), fh, indent=1, default=str)
         self.violations.append(dict(what=what, replay=path))
-        if len(self.violations) <= 20:
+        if len(self.violations) <= 8:
             print("VIOLATION property=%s replay=%s" % (self.prop, path))
-            print("  " + what[:600])
+            print("  " + what[:400])
         sys.stdout.flush()
 
     def finding(self, key, what, replay_obj):
